@@ -49,7 +49,8 @@ WitnessValid(mb) ==
 
 \* the prover's guards, in code order; result is the name of the first guard that fires
 PGuard(mb) ==
-  IF mb.wit.kind \in {"fewer", "more"} THEN "count"
+  IF mb.wit.kind = "forge" THEN "ok"          \* the independent prover has no guards: it proves whatever it is given
+  ELSE IF mb.wit.kind \in {"fewer", "more"} THEN "count"
   ELSE IF mb.wit.kind = "degree" THEN "degree"
   ELSE IF \E j \in 1..mb.m : ~(mb.n >= 64) /\ ~U64Lt(mb.vals[j], U64Pow2(mb.n)) THEN "range"
   ELSE IF mb.wit.kind \in {"blind", "value"} THEN "opening"
@@ -64,7 +65,10 @@ Bound(n, t, m, label, pgH, pgG, commit, cj, proms) ==
 Prove(mb) ==
   IF PGuard(mb) # "ok" THEN [ok |-> FALSE]
   ELSE [ok |-> TRUE, bound |-> Bound(mb.n, mb.t, mb.m, mb.label, 0, 0, "same", 0, mb.proms),
-        k |-> Log2(mb.n * mb.m), tag |-> mb.t, seed |-> mb.seed, intact |-> TRUE, idpoint |-> FALSE, undec |-> FALSE]
+        k |-> Log2(mb.n * mb.m), tag |-> mb.t, seed |-> mb.seed,
+        \* a proof made without guards satisfies the relation exactly when value - promise is an n-bit number
+        intact |-> (mb.wit.kind # "forge" \/ \A j \in 1..mb.m : U64Le(PVal(mb.proms[j]), mb.vals[j]) /\ U64Fits(U64Sub(mb.vals[j], PVal(mb.proms[j])), mb.n)),
+        idpoint |-> FALSE, undec |-> FALSE]
 
 \* ---- encoding, alteration, decoding ------------------------------------------------------------
 \* elements after the tag byte: t + 5 + 2k ; the decoder needs k >= 1 (DESIGN §7: the n*m = 1 finding)
@@ -178,10 +182,10 @@ Verifying == sc.mode # "RecoverOnly"
 BatchConsistent == \A x \in 2..K : /\ Mb(x).v.n = Mb(1).v.n /\ Mb(x).v.t = Mb(1).v.t
                                    /\ Mb(x).v.pgG = Mb(1).v.pgG /\ Mb(x).v.pgH = Mb(1).v.pgH
 \* C06: a proof exactly when the witness is valid
-C06 == (pc = "alter" /\ i = 1) => \A x \in 1..K : WitnessValid(Mb(x))
+C06 == (pc = "alter" /\ i = 1) => \A x \in 1..K : Mb(x).wit.kind = "forge" \/ WitnessValid(Mb(x))
 C06b == (Done /\ res = "prove_err") => \E x \in 1..K : ~WitnessValid(Mb(x))
 \* C01: honest, unaltered, same statement => accepted in every mode with the right masks
-Honest(x) == Mb(x).mut.kind = "none" /\ Mb(x).v = SameV(Mb(x))
+Honest(x) == Mb(x).mut.kind = "none" /\ Mb(x).v = SameV(Mb(x)) /\ Mb(x).wit.kind = "ok"
 C01 == (Done /\ res # "prove_err" /\ WellShaped /\ BatchConsistent /\ \A x \in 1..K : Honest(x) /\ (sc.viabytes => proofs[x] # ErrP))
           => res = "Ok"
 \* C03: batch verdict == conjunction, k results, aligned
